@@ -1553,6 +1553,9 @@ impl CanonicalizeContext {
 			if !(following_sibling_name == "mi" || following_sibling_name == "mo" || following_sibling_name == "mtext") {
 				return None;
 			}
+			if ELEMENTS_WITH_FIXED_NUMBER_OF_CHILDREN.contains(name(&get_parent(leaf))) {
+				return None;	// the sibling is the other part of a fraction, script, ..., not the rest of a function name
+			}
 
 			return crate::definitions::SPEECH_DEFINITIONS.with(|definitions| {
 				// change "arc" "cos" to "arccos" -- we look forward because calling loop stores previous node
